@@ -3,14 +3,21 @@
 package verifkit
 
 import (
+	"crypto/ecdsa"
+	"crypto/elliptic"
+	"crypto/rand"
 	"encoding/binary"
 	"encoding/pem"
 	"fmt"
+	"math/big"
+	"sync"
+	"time"
 
 	ct "github.com/google/certificate-transparency-go"
 	"github.com/google/certificate-transparency-go/testdata"
 	"github.com/google/certificate-transparency-go/tls"
 	"github.com/google/certificate-transparency-go/x509"
+	"github.com/google/certificate-transparency-go/x509/pkix"
 )
 
 // Pay is the payload identifier of entry i of the source log with the given seed. The Lean model
@@ -34,7 +41,50 @@ const NClasses = 8
 type SrcClass struct {
 	Precert bool   // entry type precert_entry (else x509_entry)
 	Cert    []byte // the (pre-)certificate DER as submitted (garbage for the unparsable classes)
+	TBS     []byte // precert classes: the TBSCertificate of the leaf (nil = the test-data precertificate's)
 	Bad     bool   // the certificate / TBS does not parse
+	Lax     bool   // the certificate / TBS parses, but only with non-fatal errors (x509.NonFatalErrors)
+}
+
+var (
+	laxOnce         sync.Once
+	laxCert, laxPre []byte
+	laxPreTBS       []byte
+)
+
+// laxCerts builds (once per process) a certificate and a precertificate that parse with *non-fatal* errors only: they carry
+// a non-critical RFC 3779 AS-identifiers extension whose body is not valid ASN.1 (such certificates exist in real logs).
+func laxCerts() ([]byte, []byte, []byte) {
+	laxOnce.Do(func() {
+		key, err := ecdsa.GenerateKey(elliptic.P256(), rand.Reader)
+		if err != nil {
+			panic(err)
+		}
+		bad := pkix.Extension{Id: x509.OIDExtensionASList, Critical: false, Value: []byte{0x01}}
+		poison := pkix.Extension{Id: x509.OIDExtensionCTPoison, Critical: true, Value: []byte{0x05, 0x00}}
+		mk := func(serial int64, cn string, exts []pkix.Extension) []byte {
+			tmpl := &x509.Certificate{SerialNumber: big.NewInt(serial), Subject: pkix.Name{CommonName: cn}, NotBefore: time.Unix(1500000000, 0),
+				NotAfter: time.Unix(1900000000, 0), DNSNames: []string{cn}, ExtraExtensions: exts}
+			der, err := x509.CreateCertificate(rand.Reader, tmpl, tmpl, &key.PublicKey, key)
+			if err != nil {
+				panic(err)
+			}
+			return der
+		}
+		laxCert = mk(77001, "lax.example.com", []pkix.Extension{bad})
+		laxPre = mk(77002, "laxpre.example.com", []pkix.Extension{poison, bad})
+		for _, der := range [][]byte{laxCert, laxPre} {
+			if c, err := x509.ParseCertificate(der); c == nil || err == nil || x509.IsFatal(err) {
+				panic(fmt.Sprintf("verifkit: want a certificate with non-fatal parse errors only, got cert=%v err=%v", c != nil, err))
+			}
+		}
+		pc, _ := x509.ParseCertificate(laxPre)
+		laxPreTBS = pc.RawTBSCertificate
+		if c, err := x509.ParseTBSCertificate(laxPreTBS); c == nil || err == nil || x509.IsFatal(err) {
+			panic(fmt.Sprintf("verifkit: want a TBSCertificate with non-fatal parse errors only, got cert=%v err=%v", c != nil, err))
+		}
+	})
+	return laxCert, laxPre, laxPreTBS
 }
 
 // SrcLog is a deterministic source log: entry i is a function of (Seed, i).
@@ -71,9 +121,10 @@ func NewSrcLog(seed uint64, opaque bool) *SrcLog {
 		l.ikh[i] = byte(i + 1)
 	}
 	garbage := []byte{0x30, 0x03, 0x01, 0x02, 0x03}
+	lc, lp, lpTBS := laxCerts()
 	l.Classes = [NClasses]SrcClass{
 		{Cert: c0}, {Cert: l.ca}, {Precert: true, Cert: pre}, {Cert: c3},
-		{Precert: true, Cert: pre}, {Cert: c0}, {Cert: garbage, Bad: true}, {Precert: true, Cert: garbage, Bad: true},
+		{Precert: true, Cert: lp, TBS: lpTBS, Lax: true}, {Cert: lc, Lax: true}, {Cert: garbage, Bad: true}, {Precert: true, Cert: garbage, Bad: true},
 	}
 	return l
 }
@@ -107,6 +158,9 @@ func (l *SrcLog) Entry(i int64) ct.LeafEntry {
 		}
 	}
 	tbs := l.tbs
+	if c.TBS != nil {
+		tbs = c.TBS
+	}
 	if c.Bad {
 		tbs = c.Cert
 	}
